@@ -4947,7 +4947,9 @@ bool RemapCompareLess(FunctionRemap *in1, FunctionRemap *in2) {
 
   // ok maybe something to do with return strength..
 
-  return false;
+  // Break ties by signature, so that the order does not depend on the
+  // addresses of the remap objects.
+  return in1->_function_signature < in2->_function_signature;
 }
 
 /**
